@@ -4,3 +4,10 @@ open Cst.C13
 #print axioms findCovering_contains
 #print axioms cover_contains
 #print axioms cover_total
+#print axioms cover_deepest
+#print axioms hitsG_shape
+#print axioms children_ranges
+#print axioms filter_children
+#print axioms tao_go
+#print axioms tao_total
+#print axioms tao_spec
